@@ -352,8 +352,10 @@ macro_rules! det_gens {
                 fn fill_bytes(&mut self, dest: &mut [u8]) { self.0.fill_bytes(dest) }
                 fn boxed_clone(&self) -> Box<dyn DynGen> { Box::new($w(self.0.clone())) }
                 fn eq_dyn(&self, other: &dyn DynGen) -> Option<bool> {
-                    let o = other.as_any().downcast_ref::<$w>().expect("eq_dyn: kind mismatch");
-                    m_eq!($eq, self.0, o.0)
+                    match other.as_any().downcast_ref::<$w>() {
+                        Some(o) => m_eq!($eq, self.0, o.0),
+                        None => None,
+                    }
                 }
                 fn jump(&mut self) -> bool { m_jump!($jump, self.0, jump) }
                 fn long_jump(&mut self) -> bool { m_jump!($jump, self.0, long_jump) }
